@@ -506,7 +506,13 @@ func (f *fn) convVal(v val, to types.Type, n ast.Node) val {
 		// widths are not represented: int64 → int32 etc. is the identity on Int
 		r.s, r.nat, r.cv = v.s, v.nat, v.cv
 	case kt == kSigned && kf == kUnsigned:
-		r.s, r.nat = "("+v.s+").toNat", true
+		if intWidth(to) < intWidth(v.t) {
+			// narrowing: Go keeps the low bits and reads them as two's complement
+			r.s = fmt.Sprintf("(BitVec.ofNat %d (%s).toNat).toInt", intWidth(to), v.s)
+		} else {
+			// same width (uint64 → int): values ≥ 2^63 would turn negative in Go; not represented
+			r.s, r.nat = "("+v.s+").toNat", true
+		}
 	case kt == kUnsigned && kf == kSigned:
 		u := uintName(to)
 		if v.nat {
@@ -688,10 +694,17 @@ func (f *fn) callExpr(c *ast.CallExpr) val {
 	}
 	fo := f.calleeOf(c)
 	if isErrorMaker(fo) {
+		// the arguments are evaluated for what they can do (panic, change a receiver); the text is dropped
+		var g []string
 		for _, a := range c.Args[1:] {
-			f.checkPureArg(a)
+			if ac, ok := a.(*ast.CallExpr); ok {
+				if lv, m := f.absRecv(ac); lv != nil && !hasSliceParam(m) {
+					continue // an observation: no effect
+				}
+			}
+			g = append(g, f.expr(a).g...)
 		}
-		return val{s: "Err.dyn", t: f.typeOf(c)}
+		return val{s: "Err.dyn", g: g, t: f.typeOf(c)}
 	}
 	if fo != nil {
 		if sv := f.x.special(f, c, fo); sv != nil {
@@ -701,10 +714,13 @@ func (f *fn) callExpr(c *ast.CallExpr) val {
 		if len(ci.resTypes) != 1 {
 			f.unsupported(c, "call of %s with %d results inside an expression", ci.lean, len(ci.resTypes))
 		}
-		if ci.mutates || len(ci.inout) != 0 {
-			f.unsupported(c, "call of %s, which changes its receiver or a slice argument, inside an expression (only `x := f(…)`, `x = f(…)`, `f(…)`, `return f(…)` are supported for such functions)", ci.lean)
+		if len(ci.inout) != 0 {
+			f.unsupported(c, "call of %s, which writes a slice argument, inside an expression (only `x := f(…)`, `x = f(…)`, `f(…)`, `return f(…)` are supported for such functions)", ci.lean)
 		}
-		if !ci.pure {
+		if ci.mutates {
+			f.checkEvalOrder(c)
+		}
+		if !ci.pure || ci.mutates {
 			// Res-valued: evaluate before the expression (Go evaluates calls left to right)
 			name := fmt.Sprintf("c%d", f.tmpN)
 			f.tmpN++
@@ -718,8 +734,80 @@ func (f *fn) callExpr(c *ast.CallExpr) val {
 	return val{}
 }
 
-// arguments of fmt.Errorf are not evaluated in the translation, so they must
-// not be able to panic or have effects
+// checkEvalOrder: a call that changes its receiver inside an expression.  Go
+// orders calls left to right but leaves the order between a call and a plain
+// read of a variable open; so the statement must not also read the receiver's
+// variable outside method-call receivers.
+func (f *fn) checkEvalOrder(c *ast.CallExpr) {
+	sel, ok := c.Fun.(*ast.SelectorExpr)
+	if !ok {
+		return
+	}
+	root, _, _ := f.recvPath(sel)
+	// innermost statement containing the call
+	var stmt ast.Stmt
+	ast.Inspect(f.decl.Body, func(n ast.Node) bool {
+		if n == nil || n.Pos() > c.Pos() || n.End() < c.End() {
+			return n != nil && n.Pos() <= c.Pos() && n.End() >= c.End()
+		}
+		if s, ok := n.(ast.Stmt); ok {
+			if _, isBlock := s.(*ast.BlockStmt); !isBlock {
+				stmt = s
+			}
+		}
+		return true
+	})
+	if stmt == nil {
+		return
+	}
+	// parents inside the statement header (not descending into nested blocks)
+	parent := map[ast.Node]ast.Node{}
+	var stack []ast.Node
+	ast.Inspect(stmt, func(n ast.Node) bool {
+		if n == nil {
+			stack = stack[:len(stack)-1]
+			return false
+		}
+		if _, isBlock := n.(*ast.BlockStmt); isBlock {
+			return false
+		}
+		if len(stack) > 0 {
+			parent[n] = stack[len(stack)-1]
+		}
+		stack = append(stack, n)
+		return true
+	})
+	for n := range parent {
+		id, ok := n.(*ast.Ident)
+		if !ok {
+			continue
+		}
+		v, ok := f.pkg.info.Uses[id].(*types.Var)
+		if !ok || f.vars[v] != root {
+			continue
+		}
+		// climb through field selectors; fine if we end as the receiver of a call
+		cur := ast.Node(id)
+		okRecv := false
+		for {
+			p := parent[cur]
+			se, isSel := p.(*ast.SelectorExpr)
+			if !isSel || se.X != cur {
+				break
+			}
+			if call, isCall := parent[se].(*ast.CallExpr); isCall && call.Fun == se {
+				okRecv = true
+				break
+			}
+			cur = se
+		}
+		if !okRecv {
+			f.unsupported(c, "%s changes its receiver and the same statement reads %s outside a method call: Go leaves the order of evaluation open", exprStr(c.Fun), root.name)
+		}
+	}
+}
+
+// (no longer used: arguments of error constructors are evaluated for their effects)
 func (f *fn) checkPureArg(e ast.Expr) {
 	ast.Inspect(e, func(n ast.Node) bool {
 		switch n := n.(type) {
